@@ -1192,3 +1192,31 @@ def run_real(scenario, ops, pre_ops, faults, tags, d, compute_hook=None):
         if exc is None:
             break
     return prev, prev_content, out
+
+
+# ---------------------------------------------------------------------------
+class Decider:
+    """log.decide with one replay per violation key: the first counterexample of every key is replayed
+    against the real code; later counterexamples with a key that has already been replayed and
+    confirmed are recorded as `sat` obligations (and counted in a note) without their own replay."""
+
+    def __init__(self, log):
+        self.log = log
+        self.confirmed = {}
+
+    def __call__(self, v, key, replay=None, **kw):
+        log = self.log
+        if v.holds or key not in self.confirmed:
+            ok = log.decide(v, key=key, replay=replay, **kw)
+            if not ok and any(x["key"] == key for x in log.violations):
+                self.confirmed[key] = 0
+            return ok
+        self.confirmed[key] += 1
+        log.obligations.append({"case": log.case, "what": v.what, "status": v.status, "time_s": round(v.time, 4), "residual_terms": v.nterms,
+                                "note": "same key as an already replayed violation"})
+        return False
+
+    def finish(self):
+        for k, n in self.confirmed.items():
+            if n:
+                self.log.notes.append("%d further counterexamples under key %s (first one replayed, these not individually)" % (n, k))
